@@ -37,7 +37,8 @@ CLAIMED = {
             "CrossHair symbolic execution of the wrapped text functions over symbolic ASCII strings, z3 decides every path",
             "The slicing/search/substitution identities of the statement are assertions over symbolic text, positions and counts run through the apply_meta-wrapped "
             "LEFT/MID/RIGHT/REPLACE/FIND/SUBSTITUTE/CONCATENATE/CONCAT/TRIM/UPPER/LOWER/EXACT/LEN that compiled formulas call.",
-            "Bounds: ASCII text len<=4 (quick) / 5..6 (thorough), positions -1..len+2; TRIM over {' ','a'}* up to length 4; TEXT(x, fmt) is outside the claim (C code without a model).",
+            "Bounds: ASCII text len<=4 (quick) / 5..6 (thorough), positions -1..len+2; TRIM over {' ','a'}* up to length 4; TEXT(k/10^j, fmt): |k|<=9999, j 0..3, 18 concrete single-section formats of the 0 # , . % grammar through the real "
+            "text()/TextFormat renderer against an integer reference (Decimal and format() as plugin models); other formats, dates and binary64 artefacts of x are outside the claim.",
             "DESIGN.md 4/C20"),
     "C01": ("model_checking",
             "CrossHair symbolic execution of the real ExcelCompiler over enumerated set_value/evaluate history skeletons with symbolic written values, z3 decides every path",
@@ -50,7 +51,8 @@ CLAIMED = {
             "CrossHair symbolic execution of the real date functions with the serial day as one symbolic integer over 0..2958465, z3 decides every path",
             "DATE(date_from_int(n)) = n and the wrapped YEAR/MONTH/DAY = date_from_int for every serial day, WEEKDAY period 7, DATE carry against a Gregorian-rule oracle for all "
             "(y, m, d) with m in -40..60 and d in 1..60, #NUM! instead of exceptions at the ends of the calendar, YEARFRAC symmetry (bases 2, 3).",
-            "Bounds and gaps: d <= 0 is a recorded known finding; civil-date oracle, EDATE/EOMONTH month arithmetic and YEARFRAC bases 0/1/4 only in the thorough tier (may be inconclusive); "
+            "Two DATE calls in one process history. Bounds and gaps: d <= 0 is a recorded known finding; thorough tier: civil-date oracle on 1900-1931, exact month lengths in windows around 1900/2000/2100/2400/9999, "
+            "DATE carrying -1300..1300 months, YEARFRAC bases 0/4 in windows; EDATE/EOMONTH month arithmetic away from 1900 and YEARFRAC basis 1 are not decided (no verdict within budget); "
             "HOUR/MINUTE/SECOND on Engine K in binary64 for whole seconds (10-minute slices; all of the day in the thorough tier); trusted: CrossHair's datetime model, calendar.monthrange model.",
             "DESIGN.md 4/C17"),
     "C05": ("model_checking",
